@@ -194,7 +194,7 @@ func (r *rewriter) rewriteFile(f *ast.File) {
 	ast.Inspect(f, func(n ast.Node) bool {
 		switch x := n.(type) {
 		case *ast.SelectorExpr:
-			for _, bad := range [][2]string{{"sync", "Cond"}, {"sync", "Map"}, {"sync", "Pool"}, {"time", "NewTimer"}, {"time", "NewTicker"}, {"time", "Tick"}, {"time", "AfterFunc"}, {"context", "WithCancelCause"}, {"context", "WithTimeoutCause"}, {"context", "WithDeadlineCause"}, {"context", "WithoutCancel"}} {
+			for _, bad := range [][2]string{{"sync", "Cond"}, {"sync", "Map"}, {"sync", "Pool"}, {"time", "Tick"}, {"context", "WithCancelCause"}, {"context", "WithTimeoutCause"}, {"context", "WithDeadlineCause"}, {"context", "WithoutCancel"}} {
 				if isSel(x, bad[0], bad[1]) {
 					r.errorf(x, "unsupported construct %s.%s", bad[0], bad[1])
 				}
@@ -291,7 +291,8 @@ func (r *rewriter) rewriteFile(f *ast.File) {
 		case *ast.SelectorExpr:
 			for _, m := range [][3]string{{"sync", "Mutex", "Mutex"}, {"sync", "RWMutex", "RWMutex"}, {"sync", "WaitGroup", "WaitGroup"}, {"sync", "Once", "Once"},
 				{"context", "WithCancel", "WithCancel"}, {"context", "WithTimeout", "WithTimeout"}, {"context", "WithDeadline", "WithDeadline"}, {"context", "AfterFunc", "AfterFunc"},
-				{"time", "Now", "Now"}, {"time", "Sleep", "Sleep"}} {
+				{"time", "Now", "Now"}, {"time", "Sleep", "Sleep"}, {"time", "NewTicker", "NewTicker"}, {"time", "NewTimer", "NewTimer"}, {"time", "AfterFunc", "TimeAfterFunc"},
+				{"time", "Ticker", "Ticker"}, {"time", "Timer", "Timer"}} {
 				if isSel(n, m[0], m[1]) {
 					c.Replace(sel("vs", m[2]))
 				}
